@@ -106,10 +106,10 @@ fn real_main(args: &[String]) -> i32 {
                     let check = check_by_id(&id2).unwrap();
                     let _ = tx.send(replay_file(check.as_ref(), &v2, true));
                 });
-                return match rx.recv_timeout(std::time::Duration::from_secs(90)) {
+                return match rx.recv_timeout(std::time::Duration::from_secs(framework::HANG_CPU_S as u64 + 30)) {
                     Err(_) => {
                         println!("VIOLATION property={} replay={}", id, args[2]);
-                        println!("  reproduced: class=hang (no result within 90 s)");
+                        println!("  reproduced: class=hang (no result within {} s)", framework::HANG_CPU_S as u64 + 30);
                         1
                     }
                     Ok(Ok(None)) => { println!("replay of {} finished normally on this tree", args[2]); 0 }
@@ -163,6 +163,21 @@ fn real_main(args: &[String]) -> i32 {
             let diff = a.iter().zip(&b).filter(|(x, y)| x != y).count() + a.len().abs_diff(b.len());
             println!("determinism {}: {} runs x 2 processes (1 and 16 driver threads), {} differences", args[2], a.len(), diff);
             if diff == 0 && a.len() as u64 == n { 0 } else { 2 }
+        }
+        "timekh" => {
+            // debug: cost of one simulated C03-style run on a torus knot T(p,q)
+            let p: usize = args[2].parse().unwrap();
+            let q: usize = args[3].parse().unwrap();
+            let pd = crate::diag::torus(p, q, 1);
+            println!("T({p},{q}): {} crossings, valid={}", pd.len(), crate::diag::is_valid(&pd));
+            crate::core::init_process();
+            let check = check_by_id("C03").unwrap();
+            let case = serde_json::json!({"name": "torus", "pd": crate::diag::pd_to_json(&pd), "bigint": false});
+            let (_, cfg) = plan_run(check.as_ref(), 1, 0, "quick");
+            let t = std::time::Instant::now();
+            let r = do_run(check.as_ref(), 0, case, cfg, None);
+            println!("C03 run: {:?} steps={} violation={:?} detail={}", t.elapsed(), r.steps, r.report.violation, r.report.detail);
+            0
         }
         "one" => {
             let Some(check) = check_by_id(&args[2]) else { return 2 };
